@@ -46,6 +46,7 @@ class Sym:
     ATOMS = {}      # z3 ast id -> z3 term
     DENOMS = {}     # z3 ast id -> z3 term (everything that was divided by)
     POLICY = None   # callable(kind, lhs, rhs) -> bool for ==, !=, <, ... on symbolic values (E4 runs)
+    FORK = None     # ordering comparisons the policy declines (SymBranch): decided by this controller, one run per outcome (kprop.job)
     SQRT_HOOK = None   # callable(Sym) -> Sym for x ** 0.5 (harness supplies an atom q with q*q == x, q > 0)
     SNAPS = {}      # float -> 'p/q': binary doubles of the executed Python code (e.g. 1/3.) read as the rational they round
     ALIAS = {}      # equality locus under exploration: {symbol name: other symbol name | 'p/q'} (see kprop.explore_loci)
@@ -338,7 +339,12 @@ class Sym:
                 fr = [f for f in traceback.extract_stack(limit=12) if '/compmech/' in f.filename]
                 Sym.EQ_EVENTS.append((ev[0], ev[1], ('%s:%d' % (fr[-1].filename.split('/compmech/', 1)[-1], fr[-1].lineno)) if fr else '?'))
         if Sym.POLICY is not None:
-            return Sym.POLICY(kind, self, o)
+            try:
+                return Sym.POLICY(kind, self, o)
+            except SymBranch:
+                if Sym.FORK is not None and kind in ('lt', 'le', 'gt', 'ge'):
+                    return Sym.FORK.decide(kind, self, o)
+                raise
         raise SymBranch('%s on symbolic values' % kind)
 
     def same(self, o):
@@ -380,7 +386,7 @@ class Sym:
         if self.is_numeric():
             return Sym(abs(self.n))
         if Sym.POLICY is not None:
-            return self if Sym.POLICY('ge', self, Sym.lift(0)) else -self
+            return self if self._cmp(0, 'ge') else -self
         raise SymBranch('abs of symbolic value')
 
     def __format__(self, spec): return '<sym>'
